@@ -96,7 +96,10 @@ impl Value {
 
     pub fn integer(self) -> Result<i64> {
         match self {
+            // normalize() strips trailing zeros, so an integral value is accepted
+            // whatever its scale (3.0, 1.5 * 2) and a fractional one is rejected
             Self::Number(val) => val
+                .normalize()
                 .to_string()
                 .parse()
                 .map_or(Err(Error::InvalidInteger), |num| Ok(num)),
